@@ -19,7 +19,7 @@ GIdPoolDef == {NoId, 0}
 IdPoolNone == {NoId}
 DefValsGraph == {0, 5, 10}
 StepPoolG == {"s", "d", "zz"}
-SliceOps(n) == CASE n = "C09" -> {"Generate", "Regenerate", "AddNode", "Link", "RemoveNode", "AttachAttackers", "RemoveGAttacker", "Prune", "Analyse"}
+SliceOps(n) == CASE n = "C09" -> {"Generate", "Regenerate", "AddNode", "Link", "RemoveNode", "AttachAttackers", "RemoveGAttacker", "Undo", "Prune", "Analyse"}
               [] n = "C11" -> {"Generate", "AttachAttackers", "AddGAttacker", "RemoveGAttacker", "Compromise", "Undo", "RemoveNode"}
               [] n = "C13" -> {"Generate", "AddNode", "Link", "Analyse", "Prune", "AttachAttackers", "Touch"}
               [] n = "C14" -> {"Generate", "AttachAttackers", "Analyse", "DeepCopy", "RemoveNode", "Compromise", "Touch", "AddNode", "RemoveGAttacker"}
